@@ -2,18 +2,21 @@
 # usage: tools/seedtest.sh <diff> <demo.py> <CHECK-ID> [tier]
 # Applies a seeded change to /repo, runs its demonstration and one check,
 # then undoes the change.  Never commits anything in /repo.
+# SEED_REPO=<worktree> runs everything against a scratch worktree instead of /repo.
+R="${SEED_REPO:-/repo}"
 DIFF="$1"; DEMO="$2"; ID="$3"; TIER="${4:-quick}"
 cd /verif || exit 3
-if [ -n "$(git -C /repo status --porcelain --untracked-files=no)" ]; then
-  echo "seedtest: /repo has uncommitted changes, refusing"; exit 3
+if [ -n "$(git -C "$R" status --porcelain --untracked-files=no)" ]; then
+  echo "seedtest: $R has uncommitted changes, refusing"; exit 3
 fi
 echo "== demo on clean tree"
-( cd /repo && PYTHONPATH=/repo /venv/bin/python "$DEMO" >/tmp/seed_demo_clean.log 2>&1 ); echo "demo clean exit=$?"
-git -C /repo apply "$DIFF" || { echo "seedtest: patch does not apply"; exit 3; }
+( cd "$R" && PYTHONPATH="$R" /venv/bin/python "$DEMO" >/tmp/seed_demo_$$_clean.log 2>&1 ); echo "demo clean exit=$?"
+git -C "$R" apply "$DIFF" || { echo "seedtest: patch does not apply"; exit 3; }
 echo "== demo with change"
-( cd /repo && PYTHONPATH=/repo /venv/bin/python "$DEMO" >/tmp/seed_demo_mut.log 2>&1 ); echo "demo mutated exit=$?"
-tail -n 3 /tmp/seed_demo_mut.log | cut -c1-300
+( cd "$R" && PYTHONPATH="$R" /venv/bin/python "$DEMO" >/tmp/seed_demo_$$_mut.log 2>&1 ); echo "demo mutated exit=$?"
+tail -n 3 /tmp/seed_demo_$$_mut.log | cut -c1-300
 echo "== check $ID ($TIER) with change"
-VERIF_EVIDENCE_SCRATCH=1 ./vt check "$ID" --tier "$TIER" 2>&1 | grep -v "^KNOWN-FINDING" | cut -c1-400 | tail -n 8
-git -C /repo checkout -- . 
-echo "== /repo restored: $(git -C /repo status --porcelain --untracked-files=no | wc -l) modified files"
+VERIF_REPO="$R" VERIF_EVIDENCE_SCRATCH=1 ./vt check "$ID" --tier "$TIER" 2>&1 | grep -v "^KNOWN-FINDING" | cut -c1-400 | tail -n 8
+git -C "$R" checkout -- . 
+rm -f /tmp/seed_demo_$$_*.log
+echo "== $R restored: $(git -C "$R" status --porcelain --untracked-files=no | wc -l) modified files"
